@@ -1,4 +1,5 @@
 import GodiProofs.Container.Close
+import GodiProofs.Props.C13
 /-!
 # C14 — Closing a scope releases everything held on its behalf (table clauses)
 
@@ -55,5 +56,51 @@ theorem failed_creation_not_tracked (beh : Beh) (st : State) (ctx : Nat) (e : Er
   unfold providerCreateScope
   simp only [hd, Bool.false_eq_true, ↓reduceIte]
   rw [h]
+
+/-! ### over histories: the tables hold live scopes only -/
+
+/-- NEITHER THE PROVIDER NOR A PARENT KEEPS A CLOSED SCOPE: at every point of every history that starts from a
+successful Build (resolutions, scope creations — failing initializers included —, closes in any order), every
+entry of the provider's scope table and of every scope's child table is an *open* scope, listed once -/
+theorem tables_hold_live_scopes_only (beh : Beh) (descs : List Desc) (order : List Nat) (ops : List Op)
+    (hyp : failedHyps descs = []) (hok : (buildRuntime beh descs order).2 = .ok ())
+    (hv : ValidHistT beh (buildRuntime beh descs order).1 ops) :
+    let st := run beh (buildRuntime beh descs order).1 ops
+    (∀ l, st.provScopes = some l → l.Nodup ∧ ∀ x ∈ l, (st.scope x).disposed = false) ∧
+    (∀ p C, (st.scope p).children = some C → C.Nodup ∧ ∀ c ∈ C, (st.scope c).disposed = false ∧ (st.scope c).parent = some p) := by
+  intro st
+  have t := Godi.Props.C13.forest_invariant_over_histories beh descs order ops hyp hok hv
+  refine ⟨?_, ?_⟩
+  · intro l hl
+    refine ⟨(t.tbl l hl).1, fun x hx => ?_⟩
+    rcases ((t.tbl l hl).2 x hx).2.2 with h | h
+    · exact h
+    · exact h.elim
+  · intro p C hC
+    refine ⟨(t.kids p C hC).1, fun c hc => ?_⟩
+    obtain ⟨_, h2, h3⟩ := (t.kids p C hC).2 c hc
+    rcases h3 with h | h
+    · exact ⟨h, h2⟩
+    · exact h.elim
+
+/-- … and a closed scope has released its own child table and its instance cache, and is in nobody's table -/
+theorem closed_scope_is_released_everywhere (beh : Beh) (descs : List Desc) (order : List Nat) (ops : List Op)
+    (hyp : failedHyps descs = []) (hok : (buildRuntime beh descs order).2 = .ok ())
+    (hv : ValidHistT beh (buildRuntime beh descs order).1 ops) (s : Nat) :
+    let st := run beh (buildRuntime beh descs order).1 ops
+    (st.scope s).disposed = true →
+    (∀ l, st.provScopes = some l → s ∉ l) ∧ (∀ p C, (st.scope p).children = some C → s ∉ C) ∧
+    (st.scope s).children = none ∧ (st.scope s).instances = none := by
+  intro st hs
+  exact closed_scope_is_released (Godi.Props.C13.forest_invariant_over_histories beh descs order ops hyp hok hv) s hs
+
+/-- create–use–close cycles do not accumulate: after the cycle the provider's table is what it was -/
+example :
+    let st0 := (buildRuntime {} [] []).1
+    let st1 := (providerCreateScope {} st0 0).1
+    let st2 := (closeScope {} id (closeFuel st1) st1 1).1
+    let st3 := (providerCreateScope {} st2 0).1
+    let st4 := (closeScope {} id (closeFuel st3) st3 2).1
+    (st0.provScopes, st2.provScopes, st4.provScopes) = (some [], some [], some []) := by decide
 
 end Godi.Props.C14
